@@ -98,6 +98,27 @@ MISSED = {
  'C17/r6-change1': 'MimeLite clients with finite targets around 2^68..2^100: the squared norm of the update overflows float32; the divergence guard moved behind the bound check (C07 caught the change as it stood)',
  'C17/r6-change2': 'ignore_grads_haiku over base optimizers with weight decay (adamw, sgd with decay): a zero gradient does not mean an unchanged parameter',
  'C18/r6-change2': 'new check rotation_roundtrip_legacy_rng: the rotation clauses in a child interpreter with JAX_THREEFRY_PARTITIONABLE=0',
+ 'C02/r7-change1': 'a run of the same for_each_client function that was abandoned after its first results precedes the run under test',
+ 'C03/r7-change1': 'the preprocessor chain is handed to the BatchPreprocessor constructor as a generator or as a list the caller empties afterwards',
+ 'C04/r7-change1': 'datasets of 257-1000 (rarely 66000) examples: beyond what an 8-/16-bit example index addresses',
+ 'C04/r7-change2': 'the hparams dataclasses are also built positionally, in the documented field order (also in C03)',
+ 'C05/r7-change1': 'mock models whose prediction is a mapping read through pred_key (2 or 3 entries)',
+ 'C05/r7-change2': 'new check infinite_loss_example: a real example whose target has probability 0; the mean is +inf on every evaluation path',
+ 'C06/r7-change1': 'HypCluster cluster losses with the evaluator built on the pmap / debug backend (clients come back ordered by batch count)',
+ 'C06/r7-change2': 'a client listed twice in the cohort of the packaged Mime / MimeLite algorithms',
+ 'C07/r7-change1': 'mean aggregator rounds in which client ids repeat',
+ 'C07/r7-change2': 'trees holding the very same array at two positions (tied weights) for some or all clients',
+ 'C10/r7-change1': 'new system fed_avg_frozen: FedAvg over haiku-style params given as a plain nested dict, server optimizer wrapped in ignore_grads_haiku',
+ 'C10/r7-change2': 'aggregator weights handed over as 0-d NumPy arrays (C07 caught the change as it stood)',
+ 'C11/r7-change1': 'new check aggregator_rounds_legacy_rng: rotated / DRIVE aggregator histories in a child interpreter with JAX_THREEFRY_PARTITIONABLE=0',
+ 'C11/r7-change2': 'binary quantizer on float32 vectors whose spread is a few ulps of a large offset',
+ 'C13/r7-change2': 'the seeded stream of a dataset object whose clients were all fetched by id (in another order) before',
+ 'C15/r7-change2': 'byte-string features whose fixed width differs from client to client',
+ 'C16/r7-change2': 'one reader object follows a build: num_clients / client_ids / client_sizes asked again after every add_many',
+ 'C17/r7-change1': 'frozen entries of ignore_grads_haiku as host NumPy arrays in float64 / int64 / float16',
+ 'C17/r7-change2': 'AgnosticFedAvg continued from a state whose window has another length (shorter or longer) than the algorithm\'s window size',
+ 'C18/r7-change2': 'new check rotation_pytree_across_processes: rotated values and recorded shapes compared bit for bit with a fresh interpreter under another PYTHONHASHSEED',
+ 'C20/r7-change2': 'LM predictions shifted so that every logit is negative (C14 caught the change as it stood)',
  'C18/r3-change1': 'the 7- and 8-factor (length, block) pairs, left out on compile cost, are executed op by op under jax.disable_jit()',
 }
 # Filed changes that the checks do not detect ON PURPOSE: the input they need lies
